@@ -256,6 +256,24 @@ def resolve(model: RefDir, op):
         return {'a': 'scaled_unit', 'type': tn, 'sym': f'u{n}',
                 'parent': parent, 'k': k, 'via': ['rmul', 'mul'][r[4] % 2]
                 if k['t'] != 'prefix' else 'rmul', 'expect': 'accept'}
+    if kind == 'price_type':
+        # Money per something: a derived type that cannot have a reference
+        # unit; its operations are defined by its *units*
+        cands = [t for t in types if not model.types[t]['money']
+                 and model.types[t]['units']]
+        tn = _pick(cands, r[0])
+        if tn is None:
+            return None
+        items = [['Money', 1], [tn, -1]] if r[1] % 3 else \
+            [['Money', 1], [tn, 1]]
+        dim = {}
+        for x, e in items:
+            dim = dim_add(dim, model.types[x]['dim'], e)
+        if dim_key(dim) in model.dims:
+            return None
+        return {'a': 'derived_type', 'name': f'D{n}', 'items': items,
+                'style': r[2] % 3, 'ref_sym': None, 'auto_ref': False,
+                'quantum': None, 'expect': 'accept', 'dup_dim': False}
     if kind == 'alias_unit':
         # a unit with the same scale as an existing one, reached by another
         # route: k = scale(target) / scale(parent), as a Fraction
@@ -275,15 +293,22 @@ def resolve(model: RefDir, op):
                 'alias_of': target}
     if kind in ('term_unit', 'wrong_dim_term'):
         cands = [tn for tn in model.types_with_ref()
-                 if not model.types[tn]['base']]
+                 if not model.types[tn]['base'] or r[8] % 4 == 0
+                 or kind == 'wrong_dim_term']
         tn = _pick(cands, r[0])
         if tn is None:
             return None
         items = _term_for(model, tn, r[1:6])
         if items is None:
             return None
-        k = _pick(NUMS, r[6]) if r[7] % 3 == 0 and \
-            model.types[tn]['quantum'] is None else None
+        k = None
+        nums = []
+        if r[7] % 2 == 0 and model.types[tn]['quantum'] is None:
+            # numeric elements, also with exponents other than 1 (what
+            # `term / number` or `number ** -2 * term` produce)
+            for j in range(1 + r[9] % 2):
+                nums.append([_pick(NUMS, r[6] + 7 * j),
+                             [1, -1, -1, 2, -2, 1][(r[10] + j) % 6]])
         target = tn
         expect = 'accept'
         if kind == 'wrong_dim_term':
@@ -293,9 +318,10 @@ def resolve(model: RefDir, op):
                 return None
             expect = 'reject'
         if model.types[target]['quantum'] is not None:
-            k = None
+            nums = []
         act = {'a': 'term_unit', 'type': target, 'sym': f'u{n}',
-               'items': items, 'k': k, 'expect': expect}
+               'items': items, 'k': k, 'nums': nums, 'spell': r[11] % 4,
+               'expect': expect}
         if expect == 'reject':
             act['bad'] = 'wrong_dimension'
         return act
@@ -471,6 +497,10 @@ def _term_for(model, tn, r):
     """Units whose product has the dimension of type `tn` (all with factor)."""
     t = model.types[tn]
     style = r[0] % 3
+    if t['base']:
+        # a term over one unit of the type itself (with numeric elements
+        # this is a scaled unit written as a term)
+        return [[_pick(t['units'], r[1]), 1]]
     if style in (0, 1):
         # one unit per item of the declared definition
         items = []
@@ -522,9 +552,15 @@ def apply(model: RefDir, act, info=None):
                        bvec=dict(p['bvec']),
                        num=p['num'] * num_value(act['k']))
     elif a == 'term_unit':
-        bvec, num = model.expand(act['items'], act['k'])
+        k = act['k']
+        if act.get('nums'):
+            kv = Fraction(1)
+            for spec, e in act['nums']:
+                kv *= num_value(spec) ** e
+            k = {'t': 'frac', 'v': str(kv)}
+        bvec, num = model.expand(act['items'], k)
         model.add_unit(act['sym'], act['type'],
-                       model.term_factor(act['items'], act['k']), 'term',
+                       model.term_factor(act['items'], k), 'term',
                        bvec=bvec, num=num)
     elif a == 'derive_unit':
         t = model.types[act['type']]
@@ -658,6 +694,36 @@ def perform(env: Env, act):
             u = cls.new_unit(act['sym'], 'unit ' + act['sym'], q)
             env.units[u.symbol] = u
             return 'ok', {}
+        if a == 'term_unit' and act.get('nums'):
+            from decimalfp import Decimal
+            cls = env.types[act['type']]
+            items = [(env.units[s], e) for s, e in act['items']]
+            nums = []
+            for spec, e in act['nums']:
+                k = lib_num(spec)
+                if spec['t'] == 'prefix':
+                    k = k.factor
+                elif spec['t'] in ('int', 'float'):
+                    k = Decimal(k)      # int ** -1 would be a float
+                nums.append((k, e))
+            spell = act.get('spell', 0)
+            if spell == 0:
+                term = Term(nums + items)
+            elif spell == 1:
+                term = Term(items + nums)
+            else:
+                # with operators: term * k, term / k, k * term
+                term = Term(items)
+                for k, e in nums:
+                    if e == 1:
+                        term = term * k if spell == 2 else k * term
+                    elif e == -1:
+                        term = term / k
+                    else:
+                        term = Term([(k, e)]) * term
+            u = cls.new_unit(act['sym'], None, term)
+            env.units[u.symbol] = u
+            return 'ok', {}
         if a == 'term_unit':
             cls = env.types[act['type']]
             items = [(env.units[s], e) for s, e in act['items']]
@@ -723,13 +789,13 @@ def perform(env: Env, act):
     raise ValueError(f"unknown action {act}")
 
 
-def seed_catalogue(model: RefDir, env: Env):
-    """Variant 'predefined': take the catalogue as given initial state (its
-    correctness is C20, not claimed) so that user declarations can build on
-    it and collide with it."""
+def describe_catalogue(_=None):
+    """Variant 'predefined': the catalogue as pure data, read through the
+    public API of the library (its correctness is C20, not claimed)."""
     import quantity.predefined as P
     from quantity import QuantityMeta, Quantity
     from decimalfp import ONE
+    desc = []
     for name, obj in list(vars(P).items()):
         if not (isinstance(obj, QuantityMeta) and obj is not Quantity
                 and obj.__module__ == P.__name__):
@@ -737,16 +803,12 @@ def seed_catalogue(model: RefDir, env: Env):
         ref = obj.ref_unit
         q = None if obj.quantum is None else \
             Fraction(obj.quantum.numerator, obj.quantum.denominator)
-        if obj.is_base_cls():
-            model.add_type(name, True, ref.symbol if ref else None, q, None,
-                           catalogue=True)
-        else:
-            items = [(elem.__name__, exp) for elem, exp in obj.definition]
-            model.add_type(name, False, ref.symbol if ref else None, q,
-                           items, catalogue=True)
-        env.types[name] = obj
-        if ref is not None:
-            env.units[ref.symbol] = ref
+        t = {'name': name, 'base': obj.is_base_cls(),
+             'ref': ref.symbol if ref else None,
+             'quantum': None if q is None else str(q),
+             'items': None if obj.is_base_cls() else
+             [[elem.__name__, exp] for elem, exp in obj.definition],
+             'units': []}
         for u in obj.units():
             if u is ref:
                 continue
@@ -764,6 +826,32 @@ def seed_catalogue(model: RefDir, env: Env):
                     bvec[elem.symbol] = bvec.get(elem.symbol, 0) + e
                 else:
                     num *= Fraction(elem.numerator, elem.denominator) ** e
-            model.add_unit(u.symbol, name, f, 'catalogue', bvec=bvec,
-                           num=num)
-            env.units[u.symbol] = u
+            t['units'].append([u.symbol, None if f is None else str(f),
+                               sorted(bvec.items()), str(num)])
+        desc.append(t)
+    return desc
+
+
+def seed_from(model: RefDir, desc):
+    for t in desc:
+        q = Fraction(t['quantum']) if t['quantum'] else None
+        model.add_type(t['name'], t['base'], t['ref'], q,
+                       None if t['base'] else [tuple(i) for i in t['items']],
+                       catalogue=True)
+        for sym, f, bvec, num in t['units']:
+            model.add_unit(sym, t['name'],
+                           None if f is None else Fraction(f), 'catalogue',
+                           bvec={k: e for k, e in bvec}, num=Fraction(num))
+
+
+def seed_catalogue(model: RefDir, env: Env):
+    """Seed the model from the library of this world and put the catalogue's
+    classes and units into `env`."""
+    import quantity.predefined as P
+    seed_from(model, describe_catalogue())
+    for t in model.types.values():
+        if t['catalogue']:
+            cls = getattr(P, t['name'])
+            env.types[t['name']] = cls
+            for u in cls.units():
+                env.units[u.symbol] = u
